@@ -21,8 +21,6 @@ from __future__ import annotations
 
 import os
 import random
-import shutil
-import tempfile
 from functools import partial
 
 import numpy as np
@@ -192,16 +190,19 @@ def path_mailboxes(case):
 
 
 def bound(case):
-    """B(wiring, cap): emitted - pulled <= B at every step, hence at most B further source chunks once the consumer
-    stops.  Per mailbox m on the path: at most cap(m) messages buffered in m plus at most cap(m) taken out of m in
-    one batch by its reader and not passed on yet (`to_yield` of Mailbox._read; the chunk being computed / waiting to
-    be sent is one of them).  Lazy, only the next stage drives (no discarder on the path): one chunk per mailbox."""
+    """B(wiring, cap): `emitted - pulled <= B` at every step, hence at most B further source chunks once the consumer
+    stops.  Eager: B = 2 * sum of max_messages over the mailboxes on the (cheapest) path source -> target — per mailbox
+    at most cap messages buffered plus at most cap taken out of it in one batch by its reader and not passed on yet
+    (`to_yield` of Mailbox._read; the chunk being computed / waiting to be sent is one of them).  Lazy (savers do not
+    drive): B = 1, one chunk under way.  Proved for chains (Props/C13Net.lean: chain_rest_bound, chain_rest_bound_lazy);
+    for the other shapes the same formula is what is measured here.  With a worker pool (eager only) messages are
+    futures and the consumer's reader waits for the result of the one it has taken before handing it on: B + 1."""
     w = wiring(case)
     path = path_mailboxes(case)
     eager = 2 * sum(w[m]["cap"] for m in path)
-    if not case["lazy"]:
-        return eager
-    return min(eager, len(path))
+    if case.get("workers") and not case["lazy"]:
+        return eager + 1          # worker pool: the consumer may hold one more message, the future it is waiting for
+    return min(1, eager) if case["lazy"] else eager
 
 
 # ============================================================================= real plugins
@@ -339,6 +340,14 @@ class PauseStrategy:
         self.pre, self.post, self.st = pre, post, st
 
     def choose(self, sched, runnable):
+        if self.st.get("sync_start") and not self.st.get("started"):
+            # let the consumer start every thread before anything else runs (the Lean model has all threads from the start)
+            if len(sched.tasks) >= self.st["n_threads"]:
+                self.st["started"] = True
+            else:
+                for t in runnable:
+                    if t.name == "main":
+                        return t
         if self.st["paused"]:
             others = [t for t in runnable if t.name != "main"]
             if others:
@@ -389,10 +398,11 @@ def run_pipeline(case, n):
     """run the real processor for `case` with a source of n chunks. Returns a dict of observations."""
     lazy, cap, k = bool(case["lazy"]), case["cap"], case["k"]
     workers = case.get("workers") or None
-    st = dict(n=n, emitted=0, pulled=0, paused=False, sc=None, on_emit=lambda: None)
+    st = dict(n=n, emitted=0, pulled=0, paused=False, sc=None, on_emit=lambda: None, sync_start=bool(case.get("sync_start")))
     obs = dict(cap_bad=[], gate_bad=[], wire_bad=[], max_excess=0, max_len=0, e_pause=None, e_quiet=None, quiet=None,
                got=0, exc=None, deadlocks=0, fetches=0, bad_excess=None)
     exp_w = wiring(case)
+    st["n_threads"] = 1 + len({info["sender"] for info in exp_w.values()} | {r for info in exp_w.values() for r, _ in info["readers"]} - {"main"})
     B = bound(case)
     store = MemFrontend()
     holder = {}
@@ -456,14 +466,14 @@ def run_pipeline(case, n):
 
     def quiescence(sc_, proc):
         """who is blocked where, read off the real Condition objects"""
-        q = dict(full=0, gate=0, read=0, other=0)
+        q = dict(full=0, gate=0, read=0, idle=0, other=0)
         live = [t for t in sc_.tasks if t.state != "done" and t.name != "main"]
-        waiting = 0
         for m in proc.mailboxes.values():
             q["full"] += len(m._write_condition.threading_condition._waiters)
             q["gate"] += len(m._fetch_new_condition.threading_condition._waiters)
             q["read"] += len(m._read_condition.threading_condition._waiters)
-        waiting = q["full"] + q["gate"] + q["read"]
+        q["idle"] = len([t for t in live if t.tag == "pool-idle"])      # worker threads of the pool with an empty queue
+        waiting = q["full"] + q["gate"] + q["read"] + q["idle"]
         q["other"] = len(live) - waiting
         q["runnable"] = len([t for t in live if t.is_runnable()])
         return q
@@ -519,3 +529,366 @@ def run_pipeline(case, n):
     obs["thread_exc"] = sorted(f"{t.name}:{type(t.exc).__name__}" for t in sc.tasks if t.exc is not None)
     obs["B"] = B
     return obs
+
+
+# ============================================================================= observations -> canonical line, oracle
+def is_chain(case):
+    return case["graph"]["shape"].startswith("chain")
+
+
+def chain_params(case):
+    w = wiring(case)
+    path = path_mailboxes(case)
+    caps = ",".join(str(w[m]["cap"]) for m in path)
+    sav = ",".join(str(sum(1 for r, _ in w[m]["readers"] if r.startswith("save_"))) for m in path)
+    return caps, sav
+
+
+POLICY = {"up": "up", "down": "down", "lagsave": "lag"}
+
+
+def op_rest(case):
+    caps, sav = chain_params(case)
+    return f"c13.rest {case['lazy']} {caps} {sav} {case['n']} {case['k']} {POLICY[case['pre']['kind']]} {POLICY[case['post']['kind']]}"
+
+
+def wire_line(case, obs):
+    """the wiring observed on the real processor, in the canonical form of the Lean driver (chains)"""
+    got = obs.get("wiring") or {}
+    out = []
+    for m in path_mailboxes(case):
+        g = got.get(m)
+        if g is None:
+            out.append("missing")
+            continue
+        cap = "inf" if g["cap"] == float("inf") else str(int(g["cap"]))
+        out.append(f"{cap}:{int(bool(g['lazy']))}:{''.join(sorted(('1' if d else '0' for d in g['drive']), reverse=True))}")
+    return ";".join(out)
+
+
+def wiring_diff(case, obs):
+    """independent re-statement of the wiring rules vs what ThreadedMailboxProcessor built"""
+    exp, got = wiring(case), obs.get("wiring")
+    if got is None:
+        return "processor not observed"
+    if sorted(exp) != sorted(got):
+        return f"mailboxes {sorted(got)} instead of {sorted(exp)}"
+    for m in exp:
+        e, g = exp[m], got[m]
+        if g["cap"] != e["cap"]:
+            return f"mailbox {m}: max_messages = {g['cap']}, wiring says {e['cap']}"
+        if bool(g["lazy"]) != bool(case["lazy"]) and not case.get("workers"):
+            return f"mailbox {m}: lazy = {g['lazy']}"
+        ed = sorted(d for _, d in e["readers"])
+        if sorted(g["drive"]) != ed:
+            return (f"mailbox {m}: can_drive flags {g['drive']} for readers {g['readers']}, the wiring rules give "
+                    f"{e['readers']} (savers must not drive in lazy mode)")
+    return None
+
+
+def summarise(case, o1, o2):
+    """one canonical line for the pair of runs (n and 2n source chunks)"""
+    def f(o):
+        return "x" if o["e_quiet"] is None else str(o["e_quiet"] - o["e_pause"])
+    q = o1["quiet"] or {}
+    return (f"ok further={f(o1)}/{f(o2)} pause={o1['e_pause']}/{o2['e_pause']} quiet={o1['e_quiet']}/{o2['e_quiet']} "
+            f"maxex={o1['max_excess']}/{o2['max_excess']} maxlen={max(o1['max_len'], o2['max_len'])} B={o1['B']} "
+            f"got={o1['got']}/{o2['got']} at_rest=full{q.get('full')}.gate{q.get('gate')}.read{q.get('read')}.other{q.get('other')} "
+            f"dl={o1['deadlocks']}/{o2['deadlocks']} exc={(o1['exc'] or o2['exc'] or '-').split(':')[0]} "
+            f"thr={','.join(o1['thread_exc'] + o2['thread_exc']) or '-'}")
+
+
+def judge(case, obs_list):
+    """the property's own wording, evaluated on what the real pipeline did"""
+    B = bound(case)
+    for tag, o in obs_list:
+        n = o["n"]
+        if o["exc"]:
+            return f"{tag}: the consumer got {o['exc']}"
+        if o["thread_exc"]:
+            return f"{tag}: threads died: {o['thread_exc']}"
+        if o["deadlocks"]:
+            return f"{tag}: deadlock, blocked: {o['dead_where']}"
+        if o["got"] != n:
+            return f"{tag}: the resumed run delivered {o['got']} chunks of {n}"
+        if o["cap_bad"]:
+            return f"{tag}: (b) capacity exceeded: {o['cap_bad'][0]}"
+        if o["gate_bad"]:
+            return (f"{tag}: (c) a lazy sender advanced its source while no driving subscriber was waiting for a message "
+                    f"that is not in the heap: {o['gate_bad'][0]}")
+        w = wiring_diff(case, o)
+        if w:
+            return f"{tag}: wiring: {w}"
+        if o["e_quiet"] is None:
+            return f"{tag}: the consumer never reached its pause after {case['k']} chunks"
+        q = o["quiet"]
+        if q["other"] or q["runnable"]:
+            return f"{tag}: not at rest: {q}"
+        if o["max_excess"] > B:
+            return f"{tag}: (a) emitted - pulled reached {o['max_excess']} > B = {B}"
+        if o["e_quiet"] - o["e_pause"] > B:
+            return f"{tag}: (a) {o['e_quiet'] - o['e_pause']} further source chunks after the pause > B = {B}"
+    if len(obs_list) == 2:
+        (_, a), (_, b) = obs_list
+        fa, fb = a["e_quiet"] - a["e_pause"], b["e_quiet"] - b["e_pause"]
+        exhausted = a["e_quiet"] >= a["n"]          # the short run ended before the pipeline came to rest
+        if fa != fb and not exhausted:
+            return (f"(a) further source chunks after the pause depend on the run length: {fa} for n={a['n']}, {fb} for "
+                    f"n={b['n']} (same schedule seeds)")
+        if exhausted and fb > B:
+            return f"(a) {fb} further chunks for n={b['n']} > B = {B}"
+    return None
+
+
+def run_pair(case):
+    import contextlib
+    import io
+    with contextlib.redirect_stdout(io.StringIO()):
+        o1 = run_pipeline(case, case["n"])
+        o1["n"] = case["n"]
+        o2 = run_pipeline(case, 2 * case["n"])
+        o2["n"] = 2 * case["n"]
+    return o1, o2
+
+
+def run_single(case):
+    import contextlib
+    import io
+    with contextlib.redirect_stdout(io.StringIO()):
+        o = run_pipeline(case, case["n"])
+    o["n"] = case["n"]
+    return o
+
+
+# ============================================================================= generators
+SHAPES = ["chain0", "chain1", "chain2", "chain3", "diamond", "multi-side", "multi-both", "multi-direct", "multi-srcmo"]
+
+
+def make_graph(shape, save, mm=None):
+    if shape.startswith("chain"):
+        return g_chain(int(shape[5:]), save=save, mm=mm)
+    if shape == "diamond":
+        return g_diamond(save)
+    return g_multi(shape.split("-")[1], save)
+
+
+def types_of(shape):
+    g = make_graph(shape, "")
+    return [o for n in needed_nodes(g) for o in n["outs"]]
+
+
+def mk_case(shape, cap, lazy, k, pre, post, save="", mm=None, workers=0, n=None):
+    case = dict(graph=make_graph(shape, save, mm), cap=cap, lazy=int(lazy), k=k, pre=pre, post=post, workers=workers)
+    B = bound(case) if not lazy else 2 * sum(wiring(case)[m]["cap"] for m in path_mailboxes(case))
+    case["n"] = n if n is not None else k + B + 2
+    return case
+
+
+def random_case(rng, quick=True):
+    shape = rng.choice(SHAPES)
+    lazy = rng.random() < 0.45
+    cap = rng.choice([1, 1, 2, 2, 3, 4] if quick else [1, 2, 3, 4])
+    ts = types_of(shape)
+    save = ",".join(t for t in ts if rng.random() < 0.35)
+    mm = None
+    if shape.startswith("chain") and rng.random() < 0.25:
+        mm = {rng.choice(ts): rng.randint(1, 4)}
+    k = rng.choice([1, 1, 2, 3, 4, 6])
+    r = rng.random()
+    if r < 0.4:
+        pre = dict(kind="random", seed=rng.getrandbits(32), stick=rng.choice([0.0, 0.5, 0.8]))
+    elif r < 0.55:
+        pre = dict(kind="pct", seed=rng.getrandbits(32), depth=rng.randint(1, 4))
+    else:
+        pre = dict(kind=rng.choice(["up", "down", "lagsave"]))
+    r = rng.random()
+    if r < 0.4:
+        post = dict(kind="random", seed=rng.getrandbits(32), stick=rng.choice([0.0, 0.5, 0.9]))
+    else:
+        post = dict(kind=rng.choice(["up", "up", "down", "lagsave"]))       # adversarial
+    workers = 0
+    if not lazy and rng.random() < 0.12:
+        workers = 2
+    return mk_case(shape, cap, lazy, k, pre, post, save, mm, workers)
+
+
+def chain_model_cases(rng, count):
+    """chains under the deterministic priority schedules: these are also run by the Lean chain model"""
+    out = []
+    for _ in range(count):
+        L = rng.choice([0, 1, 1, 2, 2, 3])
+        ts = types_of(f"chain{L}")
+        save = ",".join(t for t in ts if rng.random() < 0.4)
+        mm = {rng.choice(ts): rng.randint(1, 4)} if rng.random() < 0.3 else None
+        pol = rng.choice(["up", "down", "lagsave"])
+        post = rng.choice(["up", "down", "lagsave"]) if rng.random() < 0.5 else pol
+        c = mk_case(f"chain{L}", rng.choice([1, 2, 2, 3, 4]), rng.random() < 0.4, rng.choice([1, 2, 3, 5]),
+                    dict(kind=pol), dict(kind=post), save, mm)
+        c["sync_start"] = 1
+        out.append(c)
+    return out
+
+
+def every_k_cases():
+    """small runs, the consumer paused after every k"""
+    out = []
+    for shape, cap, lazy, save in [("chain1", 1, 0, ""), ("chain1", 2, 0, "p1"), ("chain2", 1, 1, "p1"), ("diamond", 1, 0, ""),
+                                   ("multi-side", 1, 0, ""), ("multi-side", 1, 1, "yy"), ("chain1", 2, 1, "src")]:
+        base = mk_case(shape, cap, lazy, 1, dict(kind="up"), dict(kind="up"), save)
+        n = base["n"] + 3
+        for k in range(1, n + 1):
+            for pol in ("up", "down"):
+                out.append(mk_case(shape, cap, lazy, k, dict(kind=pol), dict(kind="up"), save, n=n))
+    return out
+
+
+# ============================================================================= mailbox-level gate probe (stand-alone)
+def gate_cases(rng, count):
+    from props import c05
+    out = []
+    # the witness of D6 (fixed in /repo by fb45a02): a driver and a lagging non-driving reader
+    for drive in ("10", "01", "100", "110"):
+        for nmsg in (3, 4):
+            for seed in range(6):
+                out.append(dict(c05.mk_case(rng.choice([None, 2, 3, 4]), 1, drive, [f"p{10 * (i + 1)}" for i in range(nmsg)]),
+                                strat=dict(kind="pct", seed=1000 * seed + nmsg, depth=3, est=40)))
+    while len(out) < count:
+        c = c05.random_config(rng, "clean")
+        if not c["lazy"]:
+            continue
+        c["strat"] = dict(kind="pct", seed=rng.getrandbits(32), depth=rng.randint(1, 4), est=40) if rng.random() < 0.5 \
+            else dict(kind="random", seed=rng.getrandbits(32), stick=rng.choice([0, 0.5, 0.9]))
+        out.append(c)
+    return out
+
+
+def run_gate(case):
+    from props import c05
+    line, info = c05.run_real(case, c05.make_strategy(case["strat"]))
+    case["sched"] = info["trace"]
+    bad = info["gate_bad"]
+    return line, bad
+
+
+# ============================================================================= the check
+RULE_REST = ("non-trivial = the consumer was paused, the pipeline came to rest and was resumed to the end, for n and 2n source chunks; "
+             "distinct = distinct (graph, capacity, mode, savers, pause point, schedules)")
+
+
+def branch_rest(case, out):
+    g = case["graph"]
+    sv = "saved" if any("A" in n["save"] for n in g["nodes"]) else "nosave"
+    return f"{g['shape']}/{'lazy' if case['lazy'] else ('pool' if case.get('workers') else 'eager')}/cap{case['cap']}/{sv}/{case['post']['kind']}"
+
+
+def run(ctx):
+    import logging
+    import threading
+    logging.disable(logging.CRITICAL)
+    threading.excepthook = lambda args: None
+    rng = ctx.rng
+    quick = not ctx.thorough
+    stats = {}
+
+    def note_stats(case, o):
+        key = (case["graph"]["shape"], "lazy" if case["lazy"] else "eager")
+        st = stats.setdefault(key, dict(runs=0, max_excess=0, max_further=0, bound=0, tight=0))
+        st["runs"] += 1
+        st["max_excess"] = max(st["max_excess"], o["max_excess"])
+        if o["e_quiet"] is not None:
+            st["max_further"] = max(st["max_further"], o["e_quiet"] - o["e_pause"])
+        st["tight"] += int(o["max_excess"] == o["B"])
+        st["bound"] = max(st["bound"], o["B"])
+
+    # 1. chains under deterministic priority schedules: real pipeline vs the Lean chain model (counts and wiring)
+    cases = chain_model_cases(rng, ctx.pick(500, 4000))
+    res = {}
+    for i, c in enumerate(cases):
+        c["i"] = i
+        o = run_single(c)
+        res[i] = o
+        note_stats(c, o)
+
+    def impl1(c):
+        o = res[c["i"]]
+        rest = int(o["quiet"] is not None and not o["quiet"]["other"] and not o["quiet"]["runnable"])
+        return f"ok wire={wire_line(c, o)} pause={o['e_pause']} quiet={o['e_quiet']} rest={rest} B={o['B']}"
+    ctx.correspond("chain/model", cases, impl1, op_rest, lambda c, out: judge(c, [("n", res[c["i"]])]),
+                   nontrivial=lambda c, out: res[c["i"]]["e_quiet"] is not None and res[c["i"]]["got"] == c["n"],
+                   rule="chains under the priority schedules up/down/lag, run by the real processor and by the Lean chain model; "
+                        "non-trivial = paused, at rest, resumed to the end",
+                   branch=branch_rest)
+
+    # 2. all shapes, random / PCT / adversarial schedules, runs of n and 2n chunks (oracle)
+    cases = every_k_cases()
+    cases += [random_case(rng, quick) for _ in range(ctx.pick(1000, 9000))]
+    res2 = {}
+    for i, c in enumerate(cases):
+        c["i"] = i
+        o1, o2 = run_pair(c)
+        res2[i] = (o1, o2)
+        note_stats(c, o1)
+        note_stats(c, o2)
+    ctx.check_oracle("pipeline/rest", cases, lambda c: summarise(c, *res2[c["i"]]),
+                     lambda c, out: judge(c, [("n", res2[c["i"]][0]), ("2n", res2[c["i"]][1])]),
+                     nontrivial=lambda c, out: all(o["e_quiet"] is not None and o["got"] == o["n"] for o in res2[c["i"]]),
+                     rule=RULE_REST, branch=branch_rest)
+
+    # 3. stand-alone mailbox: the gate condition at every fetch of a lazy mailbox (also diffed with the mailbox model)
+    from props import c05
+    gcases = gate_cases(rng, ctx.pick(2500, 25000))
+    gres = {}
+    for i, c in enumerate(gcases):
+        c["i"] = i
+        gres[i] = run_gate(c)
+
+    def gate_oracle(c, out):
+        bad = gres[c["i"]][1]
+        if bad:
+            return f"(c) source fetched while no driving subscriber waits for a message that is not in the heap: {bad[0]}"
+        return None
+    ctx.correspond("mailbox/gate", gcases, lambda c: gres[c["i"]][0], c05.op_line, gate_oracle,
+                   nontrivial=lambda c, out: len(c["prog"]) >= 2 and len(c["drive"]) >= 2,
+                   rule="lazy stand-alone mailbox, random and PCT schedules; the gate condition is evaluated at every fetch; "
+                        "non-trivial = at least two messages and two subscribers",
+                   branch=lambda c, out: f"drive={c['drive']}/cap={c['cap']}")
+
+    ctx.note("bound formula: eager B = 2 * sum(max_messages of the mailboxes on the cheapest path source -> target); lazy B = 1 "
+             "(emitted - pulled <= B at every step; hence at most B further source chunks after the consumer stops)")
+    for (shape, mode), st in sorted(stats.items()):
+        ctx.note(f"measured {shape}/{mode}: runs={st['runs']} max(emitted-pulled)={st['max_excess']} max further after pause="
+                 f"{st['max_further']} largest bound={st['bound']} runs attaining their bound={st['tight']}")
+
+
+def search(ctx):
+    """an obligation broke: oracle-only hunt on the real pipeline"""
+    rng = ctx.rng
+    cases = [random_case(rng, True) for _ in range(400)]
+    res2 = {}
+    for i, c in enumerate(cases):
+        c["i"] = i
+        res2[i] = run_pair(c)
+    ctx.check_oracle("search/pipeline", cases, lambda c: summarise(c, *res2[c["i"]]),
+                     lambda c, out: judge(c, [("n", res2[c["i"]][0]), ("2n", res2[c["i"]][1])]))
+
+
+def replay(ctx, body):
+    import logging
+    import threading
+    logging.disable(logging.CRITICAL)
+    threading.excepthook = lambda args: None
+    if body.get("case") is None:
+        return f"obligation {body['component']} has no input to replay (no-failing-input-found); re-run the check"
+    case = dict(body["case"]["case"])
+    comp = body["component"]
+    if comp.startswith("mailbox/gate"):
+        line, bad = run_gate(case)
+        print("implementation output:", line)
+        return f"gate condition violated: {bad[0]}" if bad else None
+    if comp.startswith("chain/model"):
+        o = run_single(case)
+        print("observed:", {k: o[k] for k in ("e_pause", "e_quiet", "max_excess", "max_len", "B", "got", "quiet")})
+        return judge(case, [("n", o)])
+    o1, o2 = run_pair(case)
+    print("implementation output:", summarise(case, o1, o2))
+    return judge(case, [("n", o1), ("2n", o2)])
